@@ -111,8 +111,8 @@ func (b *setextHeadingParser) Close(node ast.Node, reader text.Reader, pc Contex
 		id, ok := node.AttributeString("id")
 		if !ok {
 			generateAutoHeadingID(heading, reader, pc)
-		} else {
-			pc.IDs().Put(id.([]byte))
+		} else if b, ok := id.([]byte); ok {
+			pc.IDs().Put(b)
 		}
 	}
 }
